@@ -345,10 +345,16 @@ func (r *recConsumer) videoTags() int {
 	return n
 }
 
+var waitTimedOut bool
+
 func waitUntil(f func() bool) bool {
+	if waitTimedOut { // one watchdog expiry is enough to report; do not wait again for every later case
+		return f()
+	}
 	deadline := time.Now().Add(30 * time.Second)
 	for i := 0; !f(); i++ {
 		if time.Now().After(deadline) {
+			waitTimedOut = true
 			return false
 		}
 		if i < 100 {
@@ -369,7 +375,7 @@ func streamLevel(c *Ctx) {
 		{0x18, 0x00, 0x01, 0x65, 0x00}, {0x78, 0x00, 0x05, 0x65}, {0x18, 0x00, 0x01}, {0x18, 0x00}, {0x7c, 0x85}, {0x7c}, {}, {0x00},
 		{0x18, 0x00, 0x02, 0x67, 0x42, 0x00}, {0x19, 0x00, 0x01, 0x00}, {0x1a, 0xff, 0xff, 0x01}, {0x1b, 0x00, 0x03, 0x01},
 	}
-	for i := 0; i < n; i++ {
+	for i := 0; i < n && !waitTimedOut; i++ {
 		sdp := sdpGood
 		if i%3 == 2 {
 			sdp = sdpNoSprop
